@@ -18,6 +18,8 @@ def kind(rec, rel, hints):
 
 def nontrivial(sc):
     msg = bytes(sc['chunks'][0]).decode('latin1')
+    if len(sc['scripts']) > 1:
+        return b';' in bytes(sc['chunks'][0])
     ops = sc['scripts'][0][3]
     body = msg[3:].strip()
     nitems = 0 if not body else body.count(',') + 1
@@ -44,6 +46,8 @@ def run(pid, tier):
             if k not in seen:
                 seen.add(k)
                 scen.append(s)
+    for s in pc.gen(rep, 'C05m', dict(MaxUnits=3), nparts=5, timeout=900):
+        scen.append(s)
     obs = pc.execute(rep, scen, 'default', 'C05')
     pc.validate(rep, 'C05', scen, obs, 'C05-default', kindfn=kind)
     nt = [s for s in scen if nontrivial(s)]
